@@ -497,8 +497,23 @@ fn rewrite_json(j: &J, ent: bool, com: bool, drop_applies: bool) -> J {
 
 /// is the inequality with `b` exactly what a combination of the known lossy printer steps produces on `src_json`?
 /// (smallest combination first)
+/// does a NAMED namespace of the JSON schema declare one name both as entity type and as common type?  fmt.rs refuses to
+/// translate such schemas (`NameCollisions`); the recorded finding C09-entity-ref-rebinds-to-common-type-empty-namespace is
+/// about the EMPTY namespace only, so a difference on a schema with a named-namespace collision is never "explained"
+fn named_namespace_collision(j: &J) -> bool {
+    let Some(o) = j.as_object() else { return false };
+    o.iter().any(|(ns, body)| {
+        !ns.is_empty()
+            && match (body.get("entityTypes").and_then(|x| x.as_object()), body.get("commonTypes").and_then(|x| x.as_object())) {
+                (Some(e), Some(c)) => e.keys().any(|k| c.contains_key(k)),
+                _ => false,
+            }
+    })
+}
+
 fn explain(src_json: Option<&J>, b: &ValidatorSchema) -> Option<String> {
     let j = src_json?;
+    if named_namespace_collision(j) { return None; }
     let names = ["entity-ref-as-eoc", "common-ref-as-eoc", "drop-half-empty-appliesTo"];
     let mut masks: Vec<u32> = (1..8).collect();
     masks.sort_by_key(|m: &u32| m.count_ones());
@@ -514,6 +529,7 @@ fn explain(src_json: Option<&J>, b: &ValidatorSchema) -> Option<String> {
 
 /// is the load failure (error class `class`) of the translation exactly what a known lossy printer step produces on `src_json`?
 fn explain_load_failure(src_json: &J, class: &str) -> String {
+    if named_namespace_collision(src_json) { return "[unexplained]".to_string(); }
     let names = ["entity-ref-as-eoc", "common-ref-as-eoc", "drop-half-empty-appliesTo"];
     let mut masks: Vec<u32> = (1..8).collect();
     masks.sort_by_key(|m: &u32| m.count_ones());
